@@ -6,11 +6,17 @@ specification `stepP`).  Hypotheses, all documented preconditions of the code or
   `Valid`     buffer a multiple of 4 in 4..1024, app id < 256, images whole words and at most 255
               blocks (8-bit field of the start packet), requested chips exist, cores < 18, binaries
               target disjoint cores, `compress_flood_fill_regions` meets its contract (C12);
+  `ValidC12`  the same with the contract hypothesis REPLACED by: the controller's `compress` is C12's
+              model `Rig.C12.compressD` of `compress_flood_fill_regions` and the machine's chips lie in the
+              256 x 256 space - `compress_contract_discharged` derives the contract from C12's theorems,
+              the `_c12` corollaries carry no assumption about region compression;
   `PreClean`  before the call no core waits under this app id and no requested core waits.
 Every theorem holds for ALL missed-set oracles `mc.missed`, all machines, maps, images, n_tries,
 both verification modes.
 -/
 import RigModel.Lemmas.C09Loop
+import RigModel.Lemmas.C09Trace
+import RigModel.Props.C12
 import Mathlib.Tactic.IntervalCases
 set_option linter.unusedSimpArgs false
 set_option linter.unusedVariables false
@@ -257,6 +263,212 @@ theorem resend_exact (mc : MCfg) (c : Ctl) (apps : List App) (hv : Valid mc c ap
     · split <;> rfl
   rw [hsent]; exact hs
 
+/-! ### the start signal -/
+
+/-- **exactly one start signal, after the last fill, and only on a normal return without `wait`.**
+For ALL machines, maps, missed-set oracles and modes (no `Valid`, no `PreClean`; app id below 256):
+the requests `load_application` adds to the log split into `added` - fills, base-address reads,
+count requests, state read-backs: none of them a signal packet - and
+* on a normal return with `wait = False`: one more request, the newest of the log - so sent after
+  every packet of the last fill and after the last verification -, which is `send_signal("start",
+  app_id)` (`startReq`; the machine reads it as signal `start`, app mask 0xff, this app id, and
+  acknowledges it);
+* on a normal return with `wait = True`, and whenever `SpiNNakerLoadingError` is raised: nothing more -
+  no signal packet at all is sent. -/
+theorem start_signal_once (mc : MCfg) (c : Ctl) (s : Sim) (apps : List App) (happ : c.appId < 256) :
+    ∃ added : List (Req × Reply), (∀ e ∈ added, isSignalPkt e.1 = false) ∧
+      (((loadApplication mc c s apps).outcome = .ok ∧ c.wait = false) →
+        (loadApplication mc c s apps).sim.trace = (startReq c.appId, Reply.ok) :: (added ++ s.trace) ∧
+        isSignalPkt (startReq c.appId) = true ∧ decode (startReq c.appId) = .signal sigStart 255 c.appId) ∧
+      (¬ ((loadApplication mc c s apps).outcome = .ok ∧ c.wait = false) →
+        (loadApplication mc c s apps).sim.trace = added ++ s.trace) := by
+  obtain ⟨added, hadd, hno⟩ := ext_loadLoop mc c (coreCount apps) (c.nTries + 1) s 0 apps []
+  refine ⟨added, hno, ?_, ?_⟩
+  · rintro ⟨hok, hw⟩
+    have hd := decode_start c.appId happ
+    refine ⟨?_, by simp only [isSignalPkt, hd], hd⟩
+    simp only [loadApplication] at hok ⊢
+    split at hok
+    · cases hok
+    · rename_i hnil
+      simp only [if_neg hnil, hw, Bool.false_eq_true, if_false, Sim.send, step, hd, stepP, and_self, if_true, hadd]
+  · intro hnot
+    simp only [loadApplication] at hnot ⊢
+    split
+    · exact hadd
+    · split
+      · exact hadd
+      · rename_i hnil hw
+        exfalso
+        apply hnot
+        have hw' : c.wait = false := by simpa using hw
+        simp only [if_neg hnil, hw', Bool.false_eq_true, if_false, and_self]
+
+/-- counting form: among the requests of one call exactly one signal packet if it returned
+normally with `wait = False`, otherwise none -/
+theorem start_signal_count (mc : MCfg) (c : Ctl) (s : Sim) (apps : List App) (happ : c.appId < 256) :
+    ∃ new : List (Req × Reply), (loadApplication mc c s apps).sim.trace = new ++ s.trace ∧
+      new.countP (fun e => isSignalPkt e.1) =
+        if (loadApplication mc c s apps).outcome = .ok ∧ c.wait = false then 1 else 0 := by
+  obtain ⟨added, hno, h1, h2⟩ := start_signal_once mc c s apps happ
+  have h0 : added.countP (fun e => isSignalPkt e.1) = 0 := by
+    rw [List.countP_eq_zero]
+    intro e he; simp [hno e he]
+  by_cases hc : (loadApplication mc c s apps).outcome = .ok ∧ c.wait = false
+  · obtain ⟨ht, hs, _⟩ := h1 hc
+    refine ⟨(startReq c.appId, Reply.ok) :: added, by rw [ht]; rfl, ?_⟩
+    rw [if_pos hc, List.countP_cons, h0]
+    simp [hs]
+  · exact ⟨added, h2 hc, by rw [if_neg hc, h0]⟩
+
+/-- the run-time oracle `startOnceOK` (evaluated by the check on the implementation's requests) holds
+on every run of the model: a call started from an empty log puts on the wire a request sequence
+whose only signal packet is a final `send_signal("start", app_id)` - present iff the call returned
+normally with `wait = False` -/
+theorem start_once_oracle_holds (mc : MCfg) (c : Ctl) (s : Sim) (apps : List App) (happ : c.appId < 256)
+    (hs : s.trace = []) :
+    startOnceOK c.appId (decide ((loadApplication mc c s apps).outcome = .ok) && !c.wait)
+      ((loadApplication mc c s apps).sim.trace.reverse.map fun e => e.1) = true := by
+  obtain ⟨added, hno, h1, h2⟩ := start_signal_once mc c s apps happ
+  have hall : ((added.reverse.map fun e => e.1).all fun r => !isSignalPkt r) = true := by
+    simp only [List.all_eq_true, List.mem_map, List.mem_reverse]
+    rintro r ⟨e, he, rfl⟩
+    simp [hno e he]
+  by_cases hc : (loadApplication mc c s apps).outcome = .ok ∧ c.wait = false
+  · obtain ⟨ht, _, _⟩ := h1 hc
+    have hst : (decide ((loadApplication mc c s apps).outcome = .ok) && !c.wait) = true := by
+      simp [hc.1, hc.2]
+    rw [hst, ht, hs]
+    simp only [startOnceOK, if_true, List.append_nil, List.reverse_cons, List.map_append, List.map_cons,
+      List.map_nil, List.getLast?_append, List.getLast?_singleton, List.dropLast_concat, Option.some_or,
+      beq_self_eq_true, Bool.true_and]
+    exact hall
+  · have hst : (decide ((loadApplication mc c s apps).outcome = .ok) && !c.wait) = false := by
+      by_cases h3 : (loadApplication mc c s apps).outcome = .ok
+      · have : c.wait = true := by
+          cases hw : c.wait with
+          | true => rfl
+          | false => exact absurd ⟨h3, hw⟩ hc
+        simp [this]
+      · simp [h3]
+    rw [hst, h2 hc, hs]
+    simp only [startOnceOK, Bool.false_eq_true, if_false, List.append_nil]
+    exact hall
+
+/-! ### the region-compression contract, discharged by C12
+
+`Props/C12.lean` proves that C12's model of `compress_flood_fill_regions` (`Rig.C12.compressD`: the
+dictionary inserted into the region tree in iteration order, pairs emitted and sorted) meets, under
+C09's own reading of the region word, everything `CompressOK` asks.  Instantiating the controller's
+`compress` with it removes the hypothesis from every theorem above. -/
+
+/-- the function the driver runs when no table of implementation pairs is given (`Model/C09.lean`,
+which cannot import C12's Props) is C12's `compressD` -/
+theorem compressC12_eq : compressC12 = Rig.C12.compressD := rfl
+
+/-- **C12 discharges C09's contract**: for the controller whose `compress` is C12's model of
+`compress_flood_fill_regions`, on a machine whose chips lie in the 256 x 256 space and a request
+naming only chips of the machine and cores below 18, `CompressOK` holds - for every sub-map the
+retry loop can produce. -/
+theorem compress_contract_discharged (mc : MCfg) (c : Ctl) (apps : List App)
+    (hc : c.compress = Rig.C12.compressD)
+    (hin : ∀ a ∈ apps, ∀ x y p, wants a x y p = true → (x, y) ∈ mc.chips ∧ p < 18)
+    (h256 : ∀ ch ∈ mc.chips, ch.1 < 256 ∧ ch.2 < 256) : CompressOK mc c apps := by
+  intro t ⟨a, ha, hsub⟩
+  have hdom : ∀ x y p, Rig.C12.wantsD t x y p = true → x < 256 ∧ y < 256 ∧ p < 18 := by
+    intro x y p hw
+    obtain ⟨hch, hp⟩ := hin a ha x y p (hsub x y p hw)
+    obtain ⟨hx, hy⟩ := h256 (x, y) hch
+    exact ⟨hx, hy, hp⟩
+  obtain ⟨h1, h2, _⟩ := Rig.C12.c09_compressOK t hdom
+  rw [hc]
+  exact ⟨h1, fun x y p _ _ => h2 x y p⟩
+
+/-- documented domain of `load_application`, with region compression done by C12's model (no
+contract hypothesis): `Valid` without `hcomp`, plus chips within the 256 x 256 space -/
+structure ValidC12 (mc : MCfg) (c : Ctl) (apps : List App) : Prop where
+  hb : 4 ≤ c.buf
+  hb4 : 4 ∣ c.buf
+  hbmax : c.buf ≤ 1024
+  happ : c.appId < 256
+  hv : mc.vcpuBase < 4294967296
+  himg : ∀ a ∈ apps, 4 ∣ a.image.length ∧ a.image.length ≤ 255 * c.buf
+  hchips : mc.chips.Nodup
+  h256 : ∀ ch ∈ mc.chips, ch.1 < 256 ∧ ch.2 < 256
+  hin : ∀ a ∈ apps, ∀ x y p, wants a x y p = true → (x, y) ∈ mc.chips ∧ p < 18
+  hdisj : ∀ a ∈ apps, ∀ b ∈ apps, ∀ x y p, wants a x y p = true → wants b x y p = true → a = b
+  hcompress : c.compress = Rig.C12.compressD
+
+theorem ValidC12.valid {mc : MCfg} {c : Ctl} {apps : List App} (h : ValidC12 mc c apps) : Valid mc c apps :=
+  { hb := h.hb, hb4 := h.hb4, hbmax := h.hbmax, happ := h.happ, hv := h.hv, himg := h.himg,
+    hchips := h.hchips, hin := h.hin, hdisj := h.hdisj,
+    hcomp := compress_contract_discharged mc c apps h.hcompress h.hin h.h256 }
+
+/-- **every fill sent is well formed, core selections included** (no assumption about region
+compression).  With `compress` = C12's model, for any map `u` naming chips of the 256 x 256 space
+and cores below 18, the requests `flood_fill_aplx` sends for `u` decode to: the start packet
+announcing `ceil(len / buf)` blocks under the id; then - between the start packet and the first
+data packet, hence between start and end - the core selections, which are **strictly increasing**
+as (region, core mask) pairs, have 18-bit masks and select exactly the requested cores (for ALL
+chips and cores); then the data packets; then the end packet.  The data packets are as many as
+announced, numbered 0, 1, 2, ..., each of 1..buf bytes (whole words), reassembling to the binary. -/
+theorem fill_wellformed_c12 (c : Ctl) (u : App) (n base flags : Nat) (hc : c.compress = Rig.C12.compressD)
+    (hb : 4 ≤ c.buf) (hb4 : 4 ∣ c.buf) (hbmax : c.buf ≤ 1024) (happ : c.appId < 256) (hf : flags < 64)
+    (hi4 : 4 ∣ u.image.length) (hblocks : u.image.length ≤ 255 * c.buf)
+    (hdom : ∀ x y p, wants u x y p = true → x < 256 ∧ y < 256 ∧ p < 18) :
+    let pid := nextNn n * 2
+    let regs := Rig.C12.compressD u.targets
+    let data := ffdPkts pid c.buf u.image.length 0 base u.image
+    (fillHead c pid u ++ fillTail c pid base flags u).map decode =
+        .ffs pid ((u.image.length + c.buf - 1) / c.buf) :: regs.map (fun rm => Pkt.ffcs rm.1 rm.2) ++
+          data ++ [.ffe pid c.appId flags] ∧
+      strictlyIncreasing regs = true ∧
+      (∀ rm ∈ regs, rm.2 < 262144) ∧
+      (∀ x y p, selectsCore regs x y p = wants u x y p) ∧
+      data.length = (u.image.length + c.buf - 1) / c.buf ∧
+      data.map Pkt.block = List.range' 0 data.length ∧
+      (data.map Pkt.payload).flatten = u.image ∧
+      ∀ q ∈ data, 0 < q.payload.length ∧ q.payload.length ≤ c.buf ∧ 4 ∣ q.payload.length := by
+  intro pid regs data
+  obtain ⟨h1, h2, h3⟩ := Rig.C12.c09_compressOK u.targets hdom
+  have hsi : strictlyIncreasing regs = true := by
+    have := h3 []
+    simp only [regionsOK, Bool.and_eq_true] at this
+    exact this.1.1
+  have hmask : ∀ rm ∈ c.compress u.targets, rm.2 < 262144 := by rw [hc]; exact h1
+  obtain ⟨f1, f2, f3, f4, f5⟩ := fill_wellformed c u n base flags hb hb4 hbmax happ hf hi4 hblocks hmask
+  refine ⟨?_, hsi, h1, h2, f2, f3, f4, f5⟩
+  rw [f1, hc]; rfl
+
+/-- `load_sound` without the `CompressOK` hypothesis (region compression = C12's model) -/
+theorem load_sound_c12 (mc : MCfg) (c : Ctl) (apps : List App) (hv : ValidC12 mc c apps) (s : Sim)
+    (hpre : PreClean s.m apps c.appId) (hok : (loadApplication mc c s apps).outcome = .ok) :
+    ∀ x y p, postOkCore apps c.appId c.wait (s.m.core x y p)
+      ((loadApplication mc c s apps).sim.m.core x y p) x y p = true :=
+  load_sound mc c apps hv.valid s hpre hok
+
+/-- `load_error_exact` without the `CompressOK` hypothesis -/
+theorem load_error_exact_c12 (mc : MCfg) (c : Ctl) (apps : List App) (hv : ValidC12 mc c apps) (s : Sim)
+    (hpre : PreClean s.m apps c.appId) (unl : List App)
+    (herr : (loadApplication mc c s apps).outcome = .loadingError unl) :
+    ∀ x y p, postErrCore apps unl c.appId (s.m.core x y p)
+      ((loadApplication mc c s apps).sim.m.core x y p) x y p = true :=
+  load_error_exact mc c apps hv.valid s hpre unl herr
+
+/-- `attempts_bounded` without the `CompressOK` hypothesis -/
+theorem attempts_bounded_c12 (mc : MCfg) (c : Ctl) (apps : List App) (hv : ValidC12 mc c apps) (s : Sim)
+    (hpre : PreClean s.m apps c.appId) :
+    (loadApplication mc c s apps).sent.length ≤ c.nTries + 1 ∧
+    ∀ unl, (loadApplication mc c s apps).outcome = .loadingError unl →
+      (loadApplication mc c s apps).sent.length = c.nTries + 1 :=
+  attempts_bounded mc c apps hv.valid s hpre
+
+/-- `resend_exact` without the `CompressOK` hypothesis -/
+theorem resend_exact_c12 (mc : MCfg) (c : Ctl) (apps : List App) (hv : ValidC12 mc c apps) (s : Sim)
+    (hpre : PreClean s.m apps c.appId) :
+    ∀ l ∈ (loadApplication mc c s apps).sent, SentOK c apps s.m l :=
+  resend_exact mc c apps hv.valid s hpre
+
 /-! ### instances: non-vacuity of the hypotheses, and the counterexamples without `PreClean` -/
 
 /-- one chip (0, 0); `allMiss` decides whether the chip misses every fill -/
@@ -356,6 +568,33 @@ example : Valid (mcE true) (ctlE false true) appsE ∧ PreClean (initE 5 31).m a
     (loadApplication (mcE true) (ctlE false true) (initE 5 31) appsE).outcome = .loadingError appsE ∧
     (loadApplication (mcE true) (ctlE false true) (initE 5 31) appsE).sent.length = 3 :=
   ⟨validE _ _ _, precleanE, by decide, by decide⟩
+
+/-- the controller of the examples with region compression done by C12's model -/
+def ctlC (useCount wait : Bool) : Ctl := { ctlE useCount wait with compress := Rig.C12.compressD }
+
+theorem validC (allMiss useCount wait : Bool) : ValidC12 (mcE allMiss) (ctlC useCount wait) appsE :=
+  have v := validE allMiss useCount wait
+  { hb := v.hb, hb4 := v.hb4, hbmax := v.hbmax, happ := v.happ, hv := v.hv, himg := v.himg,
+    hchips := v.hchips, hin := v.hin, hdisj := v.hdisj, hcompress := rfl,
+    h256 := by
+      intro ch hch
+      simp only [mcE, List.mem_singleton] at hch
+      subst hch; exact ⟨by decide, by decide⟩ }
+
+/-- the hypotheses of the `_c12` theorems are satisfiable with non-trivial runs: C12's model yields
+the pair (0x00030001, 2) for the request, the load succeeds and starts core 1; when the chip misses
+every fill the error is raised after three attempts -/
+example : ValidC12 (mcE false) (ctlC true false) appsE ∧ PreClean (initE 5 31).m appsE 30 ∧
+    Rig.C12.compressD [(0, 0, [1])] = [(196609, 2)] ∧
+    (loadApplication (mcE false) (ctlC true false) (initE 5 31) appsE).outcome = .ok ∧
+    (loadApplication (mcE false) (ctlC true false) (initE 5 31) appsE).sim.m.core 0 0 1 =
+      ⟨stRun, 30, [1, 2, 3, 4, 5, 6, 7, 8]⟩ :=
+  ⟨validC _ _ _, precleanE, by decide +kernel, by decide +kernel, by decide +kernel⟩
+
+example : ValidC12 (mcE true) (ctlC false true) appsE ∧ PreClean (initE 5 31).m appsE 30 ∧
+    (loadApplication (mcE true) (ctlC false true) (initE 5 31) appsE).outcome = .loadingError appsE ∧
+    (loadApplication (mcE true) (ctlC false true) (initE 5 31) appsE).sent.length = 3 :=
+  ⟨validC _ _ _, precleanE, by decide +kernel, by decide +kernel⟩
 
 /-- **count shortcut fooled by a stale waiter** (no `PreClean`): every other hypothesis holds; core 5
 of the chip already waits under the app id, the chip misses every fill; in count mode
